@@ -203,6 +203,30 @@ pub fn keep_arg() -> Option<String> {
     Some(v.get(p + 1).cloned().unwrap_or_default())
 }
 
+/// "[<kind> kept: 3,7 of 12] " for the description of a reduced case, "" in a normal run
+pub fn keep_prefix(kind: &str, n: usize) -> String {
+    match keep_arg() { Some(k) => format!("[{} kept: {} of {}] ", kind, k, n), None => String::new() }
+}
+/// IL-program cases: an element is one INSTRUCTION of the generated function (position = `base` + running index over
+/// the blocks in order).  A dropped instruction is REPLACED BY `nop`: block indices, instruction indices, edges and
+/// addresses stay, so initial states, location-keyed tables and everything drawn later from the Rng stay meaningful.
+/// Returns the number of instructions of `f` (the caller adds it to `base` for the next function of a program).
+pub fn nop_dropped(f: &mut falcon::il::Function, base: usize) -> usize {
+    let bidx: Vec<usize> = f.blocks().iter().map(|b| b.index()).collect();
+    let mut pos = base;
+    for bi in bidx {
+        let b = f.block_mut(bi).unwrap();
+        for ins in b.instructions_mut().iter_mut() {
+            if !kept(pos) { *ins.operation_mut() = falcon::il::Operation::nop(); }
+            pos += 1;
+        }
+    }
+    pos - base
+}
+pub fn instr_count(f: &falcon::il::Function) -> usize {
+    f.blocks().iter().map(|b| b.instructions().len()).sum()
+}
+
 pub struct Args {
     pub seed: u64,
     pub n: u64,
